@@ -278,6 +278,17 @@ def eval_cases(tag, hdr, terms, shard=20, timeout=900):
     return out
 
 
+def run_coqchk(run, module):
+    """thorough tier: re-check the compiled closure of the property file with the independent checker"""
+    p = _sp.run(["timeout", "1800", "coqchk", "-silent", "-o", "-Q", ".", "V", module], cwd=common.COQ,
+                stdout=_sp.PIPE, stderr=_sp.STDOUT, text=True)
+    tail = p.stdout[-1500:]
+    ok = p.returncode == 0 and "* Axioms: <none>" in p.stdout
+    run.coverage["coqchk"] = {"module": module, "ok": ok, "summary": " ".join(tail.split())[-400:]}
+    if not ok:
+        run.broken.append(Broken("assumption", "coqchk " + module, {"output": tail}))
+
+
 # --------------------------------------------------------------------------
 # comparing a model line with the implementation's observation
 
@@ -791,7 +802,10 @@ def check(run):
         "non-trivial = some id has two or more versions and some read returns an object" % max_adds)
     with common.Lock():
         res = common.build_props("Props/C11.v", extra_targets=["Model/StoreCases.vo"])
-        run.add_build(res, "make -C coq Props/C11.vo (coqc 8.16.1, full .vo) + Print Assumptions per theorem")
+        run.add_build(res, "make -C coq Props/C11.vo (coqc 8.16.1, full .vo) + Print Assumptions per theorem"
+                           + ("" if quick else " + coqchk -o V.Props.C11"))
+        if not quick and res["ok"]:
+            run_coqchk(run, "V.Props.C11")
     probe = common.run_impl("c11_impl", [{"kind": "probe"}], procs=1)[0]
     NAIVE_KEPT[0] = bool(probe.get("naive_kept", True))
     run.coverage["naive_datetime_kept"] = NAIVE_KEPT[0]
